@@ -73,6 +73,7 @@ func runOne(prop string, t *kernel.Tape, o rt.Opts) (res *rt.Result) {
 			}
 		}
 	}()
+	kernel.ResetClock()
 	return runProp(prop, t, o)
 }
 
